@@ -225,10 +225,8 @@ class EMG(Block):
             )
 
         if channel is None:
-            if len(self._emgMap) == 0:
-                next_channel = 0
-            else:
-                next_channel = max(self._emgMap) + 1
+            # (the map is stored as 16 bit integers)
+            next_channel = i16.free_channel(self._emgMap)
             self._emgMap.append(next_channel)
         else:
             if channel in self._emgMap:
